@@ -4,7 +4,7 @@
    `run false` / `stop_loop false` = the legacy code, kept for the refuted statements. *)
 From Coq Require Import NArith ZArith List Bool Arith.
 Import ListNotations.
-Require Import UV.C04.Model UV.C04.Proofs UV.C04.ProofsLazy UV.C04.ProofsLive UV.C04.Compose UV.C04.ProofsDecode UV.C04.ProofsMulti.
+Require Import UV.C04.Model UV.C04.Proofs UV.C04.ProofsLazy UV.C04.ProofsLive UV.C04.Compose UV.C04.ProofsDecode UV.C04.ProofsMulti UV.C04.ProofsDark.
 
 (* One thread stores the records `recs` (store by store, switching / re-using / growing / shrinking
    its ring of buffers; `start true`: beginning with its set-up by the first hook call, prepare_shmem_buffer);
@@ -61,6 +61,21 @@ Theorem C04_crashing_thread_among_others_is_complete : forall cap recss sched t 
   match_recs (eager [] ops) (mfile t (mfinish Mk)) = true.
 Proof. exact multi_crashed_thread_is_complete. Qed.
 Print Assumptions C04_crashing_thread_among_others_is_complete.
+
+(* the `PDark` abstraction of the LTS is faithful: in the machine where a thread whose messages no longer reach the
+   recorder (pipe closed by a finish / signal trigger) goes on storing into shared memory, the data file is the
+   same, for every schedule (FC = the pipe is closed; afterwards producer steps send nothing) ... *)
+Theorem C04_dark_abstraction_is_faithful : forall setup single cap recs sched,
+  file (finish (fst (frun single cap sched (start setup recs, false))))
+  = file (finish (run single cap (asched false sched) (start setup recs))).
+Proof. exact dark_is_faithful. Qed.
+Print Assumptions C04_dark_abstraction_is_faithful.
+
+(* ... so the faithful machine has the guarantee too *)
+Theorem C04_prefix_faithful_machine : forall setup cap recs sched,
+  ok_prefix recs (file (finish (fst (frun true cap sched (start setup recs, false))))) = true.
+Proof. exact prefix_faithful. Qed.
+Print Assumptions C04_prefix_faithful_machine.
 
 (* both variants at once: the file is the stored records plus `extra` (empty for the code as it is) *)
 Theorem C04_prefix_general : forall setup single cap recs sched,
